@@ -4,7 +4,8 @@
 //!
 //! Input: NDJSON, one job per line: {"q": [code points]} or {"qs": "text"}; optional
 //!   "reset": true (fresh context before this job), "render": true (also text / spans / JSON),
-//!   "expr": <AST json> (C11: print this expression instead of parsing text).
+//!   "expr": <AST json> (C11: print this expression instead of parsing text),
+//!   "clear_ans" / "preset" / "slim" / "st" (C15: see run_job).
 //! Output: one line per job: {"q", "ast", "obs", "ms"} or {"q", "crash": ...}.
 //!
 //!   rv-eval dump <ctx> <out.json>   canonical JSON dump of the loaded registry
@@ -76,11 +77,41 @@ fn run_job(ctx: &mut Context, job: &Value) -> Value {
                       "canon": c.as_ref().map(|c| text(c)), "canon_lookup": cv.as_ref().map(rv_harness::obs::number_json)});
     }
     let q = job_text(job);
+    // C15: "clear_ans" forgets the previous answer, "preset" installs one (a number observation),
+    // "slim" records digests instead of the bulky AST / reply, "st" adds the state digests.
+    if job["clear_ans"].as_bool().unwrap_or(false) {
+        ctx.previous_result = None;
+    }
+    if job["preset"].is_object() {
+        ctx.previous_result = rv_harness::session::json_number(&job["preset"]);
+    }
     let mut it = TokenIterator::new(q.trim()).peekable();
     let query = parse_query(&mut it);
-    let ast = query_json(&query);
     let reply = rink_core::eval(ctx, &q);
-    let mut out = json!({"q": text(&q), "ast": ast, "obs": reply_obs(&reply)});
+    let slim = job["slim"].as_bool().unwrap_or(false);
+    let mut out = if slim {
+        let o = reply_obs(&reply);
+        let raw = match &reply {
+            Ok(rink_core::output::QueryReply::Number(p)) => p.raw_value.clone(),
+            Ok(rink_core::output::QueryReply::Duration(d)) => d.raw.raw_value.clone(),
+            _ => None,
+        };
+        json!({"q": text(&q), "plain": matches!(query, rink_core::ast::Query::Expr(_)),
+               "t": o["t"], "kind": o["kind"], "c": o["c"],
+               "rd": rv_harness::session::digest(&o.to_string()),
+               "raw_d": raw.as_ref().map(|n| rv_harness::session::digest(&rv_harness::obs::number_json(n).to_string()))})
+    } else {
+        json!({"q": text(&q), "ast": query_json(&query), "obs": reply_obs(&reply)})
+    };
+    if slim || job["st"].as_bool().unwrap_or(false) {
+        out["ans_d"] = match &ctx.previous_result {
+            Some(prev) => json!(rv_harness::session::digest(&rv_harness::obs::number_json(prev).to_string())),
+            None => Value::Null,
+        };
+    }
+    if job["st"].as_bool().unwrap_or(false) {
+        out["st"] = rv_harness::session::state_json(ctx);
+    }
     if job["render"].as_bool().unwrap_or(false) {
         // every output form: plain text, span tree, JSON
         let plain = match &reply {
